@@ -72,6 +72,50 @@ def reload_scenario(sid, hist, rng):
     return {"id": sid, "hosts": HOSTS, "versions": False, "steps": steps}
 
 
+def health_part(v, tier, rng, wd, replay_sc=None):
+    """C11 'effective routing ... identical to a freshly started gateway': the lives of one endpoint (EndpointLife.tla: added on/off, disabled,
+    enabled, removed, re-added, its upstream turning unhealthy / healthy at any point, also while it is disabled) replayed into the real gateway
+    with real health checks (harness proxyh); after every change every enabled endpoint must probe when asked to and the gateway's view of it
+    must be what its upstream answers - which is what a fresh gateway given the latest object finds"""
+    import endpoints
+    states = trans = 0
+    if replay_sc is not None:
+        scs = [replay_sc]
+    else:
+        lives, states, trans = endpoints.lives_of(tier, "C11")
+        hl = [x for x in lives if ("hfail" in x or "hok" in x) and "on" in x]
+        rng.shuffle(hl)
+        if tier == "quick":
+            hl = [x for x in hl if "off" in x and x[-1] == "on"][:20] + [x for x in hl if not ("off" in x and x[-1] == "on")][:15]
+        scs = endpoints.life_scenarios(860001, hl)
+    binp = os.path.join(wd, "proxyh.test")
+    vlib.go_test_build("./proxyh", binp)
+    traces, crashed = vlib.run_test_driver(binp, scs, wd, timeout=1500)
+    sc_by_id = {str(s["id"]): s for s in scs}
+    for sid, tail in crashed.items():
+        if "HARNESS-INFRA" in tail:
+            raise Infra("proxyh: " + tail[-600:])
+        v.violation("crash-%s" % sid, {"scenario": sc_by_id[sid], "kind": "life", "what": "gateway process crashed", "stderr_tail": tail})
+    tl = [{"id": int(sid), "events": endpoints.project(sc_by_id[sid], t["events"])} for sid, t in traces.items()]
+    tr_p = os.path.join(wd, "life.ndjson")
+    vlib.write_ndjson(tr_p, tl)
+    tv = vlib.tlc("dataplane", "TraceEndpoints", "TraceEndpoints.cfg", workers=8, timeout=1800,
+                  consts={"TraceFile": '"%s"' % tr_p, "Judge03": "FALSE", "Judge14": "FALSE", "Judge15": "FALSE", "JudgeLive": "TRUE"})
+    by_id = {str(t["id"]): t for t in tl}
+    nrej = 0
+    for l in tv.out.splitlines():
+        if l.startswith('<<"REJECT"'):
+            parts = [x.strip().strip('"') for x in l.strip("<>").split(",")]
+            sid, line = parts[1], int(parts[2])
+            nrej += 1
+            evs = by_id[sid]["events"]
+            v.violation("life-%s" % sid, {"scenario": sc_by_id[sid], "kind": "life", "rejected_event": evs[line - 1], "events_before": evs[max(0, line - 8):line - 1],
+                                          "what": "an endpoint the latest object lists as enabled has no live health-check loop (asked for a probe it does not probe), or the gateway's view of it is not what its "
+                                                  "upstream answers: effective routing differs from a fresh gateway's"})
+    judged = sum(1 for t in tl for e in t["events"] if e["k"] in ("pokelive", "triggered", "ready"))
+    return states + tv.distinct, trans + tv.generated, judged, len(tl) - nrej
+
+
 def clean(x):
     """JSON null -> {'absent': true} (TLC has no null)"""
     if x is None:
@@ -95,6 +139,12 @@ def run(prop, tier, replay):
     try:
         states = trans = 0
         kinds = {}
+        hstates = htrans = hjudged = htraces = 0
+        if replay and json.load(open(replay)).get("kind") == "life":
+            health_part(v, tier, rng, wd, replay_sc=json.load(open(replay))["scenario"])
+            return v.finish()
+        if prop == "C11" and not replay:
+            hstates, htrans, hjudged, htraces = health_part(v, tier, rng, wd)
         if replay:
             rp = json.load(open(replay))
             scs = [rp["scenario"]]
@@ -232,7 +282,8 @@ def run(prop, tier, replay):
                                                    else "effective configuration differs from a fresh gateway given only the latest objects"})
         rc = v.finish()
         obs = [e for t in tl for e in t["events"] if e["k"] == "obs"]
-        cov = {"states": states + tv.distinct, "transitions": trans + tv.generated, "traces_validated_against_impl": len(tl) - len(rejected),
+        cov = {"states": states + tv.distinct + hstates, "transitions": trans + tv.generated + htrans, "traces_validated_against_impl": len(tl) - len(rejected) + htraces,
+               "endpoint_life_observations_real_health_checks": hjudged,
                "samples": [[{k: x[k] for k in ("k",) + (("resolve", "latest") if x["k"] == "obs" else ())} for x in tl[0]["events"][:4]]],
                "evaluations": len(obs) + (sum(1 for t in tl for e in t["events"] if e["k"] == "mid") if prop == "C10" else 0),
                "table_snapshots_after_each_write": sum(1 for t in tl for e in t["events"] if e["k"] == "mid"), "distinct_nontrivial": len({vlib.canon(e) for e in obs}),
